@@ -27,7 +27,7 @@ RULE = (
     "pickle.loads(dumps) and deepcopy -> snapshot equality incl. xyzr, integrate equality (bit for bit), gradient equality at the "
     "trainable initial states; then every alphabet operation applied to the copy must leave the original's snapshot hash unchanged"
 )
-REQUIRED_COVER = ["swc_radius_functions", "network_with_synapses", "trainables", "clamps", "groups", "gradient_compared",
+REQUIRED_COVER = ["coordinates_edited_on_copy", "swc_radius_functions", "network_with_synapses", "trainables", "clamps", "groups", "gradient_compared",
                   "set_ncomp_on_unpickled_swc", "copy_edited_original_unchanged"]
 ASSUMPTIONS = ["eager CPU execution is deterministic, so identical modules give bit-identical integrate results"]
 SIG_INIT = False
@@ -80,13 +80,20 @@ def _net_rich():
 INITS = dict(spec.INITS)
 INITS["swc_cell"] = _swc_cell
 INITS["net_rich"] = _net_rich
-OPS = spec.OPS
+OPS = dict(spec.OPS)
+# operations that edit the traced coordinates in place (only relevant for copy independence)
+OPS["x_move"] = lambda m: m.move(10.0, -5.0, 2.0)
+OPS["x_move_view"] = lambda m: (m.cell(0) if type(m).__name__ == "Network" else m.branch(0)).move(3.0, 4.0, 0.0)
+OPS["x_rotate"] = lambda m: m.rotate(90)
+OPS["x_compute_xyz"] = lambda m: m.compute_xyz()
+_XOPS = ["x_move", "x_move_view", "x_rotate", "x_compute_xyz"]
 _SWC_OPS = ["set_rad_b2c1", "set_v_b0", "ncomp_b1_2", "ncomp_b2_1", "group_b0", "rec_v_b2", "delrec_all", "stim_b0c0", "clamp_v_b1",
             "delstim_all", "delclamp_all", "train_rad_branches", "deltrain_all", "init_states", "ins_Leak_b0", "del_HH_all"]
 _RICH_OPS = [k for k in spec.OPS_FOR["net2"] if k not in ("n_connect_Tanh",)]
 OPS_FOR = dict(spec.OPS_FOR)
 OPS_FOR["swc_cell"] = _SWC_OPS
 OPS_FOR["net_rich"] = _RICH_OPS
+OPS_FOR = {k: list(v) + _XOPS for k, v in OPS_FOR.items()}
 
 
 def invariants(m, hist, **kw):
@@ -223,6 +230,8 @@ def check_state(init, hist, do_sim, do_grad):
                     viol("behaviour_differs_after_copy", how, f"{op} works on the copy but raises on the original", op=op.split("_")[0])
             h1 = canon.hash_of(canon.snapshot(m, with_xyzr=True))
             out["cover"].append("copy_edited_original_unchanged")
+            if op.startswith("x_"):
+                out["cover"].append("coordinates_edited_on_copy")
             if h1 != h0:
                 d = canon.diff(snap, canon.snapshot(m, with_xyzr=True))
                 viol("copy_not_independent", how, f"editing the copy with {op} changed the original at {d[:4]}", op=op.split("_")[0])
